@@ -21,6 +21,7 @@ FUNCS = [
     'config_get_option', 'config_set_option', 'config_set_options', 'config_get_options',
     'config_set_tab_width', 'config_get_tab_width',
     'config_set_float_precision', 'config_get_float_precision',
+    '__config_list_checktype', 'config_setting_length',
 ]
 
 TY = {'int': '.i32', 'long long': '.i64', 'unsigned short': '.u16', 'short': '.i16', 'unsigned int': '.u32',
@@ -81,6 +82,38 @@ class Fn:
             return 'config' if self.obj(n['inner'][0]) == 'setting' else None
         return None
 
+    # `setting->value.list` as an lvalue / as the pointer value read from it
+    def is_list_lv(self, n):
+        n = strip(n)
+        if n.get('kind') != 'MemberExpr' or n.get('name') != 'list' or n.get('isArrow'):
+            return False
+        b = strip(n['inner'][0])
+        return (b.get('kind') == 'MemberExpr' and b.get('name') == 'value' and b.get('isArrow')
+                and self.obj(b['inner'][0]) == 'setting')
+
+    def is_list_rv(self, n):
+        n = strip(n)
+        return (n.get('kind') == 'ImplicitCastExpr' and n.get('castKind') == 'LValueToRValue'
+                and self.is_list_lv(n['inner'][0]))
+
+    # `setting->value.list->elements[<literal k>]` read as a pointer: k
+    def elem_index(self, n):
+        n = strip(n)
+        if not (n.get('kind') == 'ImplicitCastExpr' and n.get('castKind') == 'LValueToRValue'):
+            return None
+        a = strip(n['inner'][0])
+        if a.get('kind') != 'ArraySubscriptExpr':
+            return None
+        arr, idx = strip(a['inner'][0]), strip(a['inner'][1])
+        if not (arr.get('kind') == 'ImplicitCastExpr' and arr.get('castKind') == 'LValueToRValue'):
+            return None
+        e = strip(arr['inner'][0])
+        if not (e.get('kind') == 'MemberExpr' and e.get('name') == 'elements' and e.get('isArrow') and self.is_list_rv(e['inner'][0])):
+            return None
+        if idx.get('kind') != 'IntegerLiteral':
+            return None
+        return int(idx['value'])
+
     def lv(self, n):
         n = strip(n)
         k = n.get('kind')
@@ -99,6 +132,12 @@ class Fn:
         if k == 'MemberExpr':
             base = n['inner'][0]
             if n.get('isArrow'):
+                if n.get('name') == 'length' and self.is_list_rv(base):
+                    return '.listLen'
+                if n.get('name') == 'type':
+                    k = self.elem_index(base)
+                    if k is not None:
+                        return '(.elemType %d)' % k
                 o = self.obj(base)
                 if o == 'setting' and n['name'] in SF:
                     return '(.sf %s)' % SF[n['name']]
@@ -109,6 +148,8 @@ class Fn:
             if (b.get('kind') == 'MemberExpr' and b.get('name') == 'value' and b.get('isArrow')
                     and self.obj(b['inner'][0]) == 'setting' and n['name'] in VF):
                 return '(.sf %s)' % VF[n['name']]
+            if self.is_list_lv(n):
+                return '.listPtr'
             return self.note('member .' + n.get('name', '?'))
         return self.note('lvalue ' + str(k))
 
@@ -149,6 +190,8 @@ class Fn:
             args = n['inner'][1:]
             if name == 'config_get_option' and len(args) == 2 and self.obj(args[0]) == 'config':
                 return '(.call .getOption %s)' % self.expr(args[1])
+            if name == 'config_setting_is_aggregate' and len(args) == 1 and self.obj(args[0]) == 'setting':
+                return '(.call .settingIsAggregate (.lit 0))'
             if name == '__config_type_is_scalar' and len(args) == 1:
                 return '(.call .typeIsScalar %s)' % self.expr(args[0])
             return self.note('call ' + str(name))
